@@ -556,7 +556,7 @@ def _islice(I, args, kw):
     it = args[0]
     if is_tagged(it, "opaque-iter") and len(args) == 2 and isinstance(args[1], int) and args[1] >= 1:
         return it
-    I.use("itertools.islice(it, start, stop): ValueError unless start/stop are None or >= 0; yields the elements start..stop-1")
+    I.use("itertools.islice(it, start, stop): ValueError unless start/stop are None or 0 <= x <= sys.maxsize; yields the elements start..stop-1")
     if len(args) == 2:
         start, stop = None, args[1]
     else:
@@ -567,7 +567,7 @@ def _islice(I, args, kw):
         if v is None:
             continue
         if isinstance(v, (SInt, int)) and not isinstance(v, bool):
-            ex.require(ex.to_int_term(v) >= 0, "ValueError", f"islice {what} must be None or >= 0")
+            ex.require(z3.And(ex.to_int_term(v) >= 0, ex.to_int_term(v) <= sys.maxsize), "ValueError", f"islice {what} must be None or 0 <= x <= sys.maxsize")
         else:
             ex.raise_builtin("ValueError", f"islice {what} of wrong type")
     ex.trace_event("islice", it, start, stop)
